@@ -57,3 +57,51 @@ def confirm(part, kwargs, native):
         return c04.confirm(part, kwargs, native)
     from vt import recreplay
     return recreplay.confirm(part, kwargs, native)
+
+
+def smt(tier, rep):
+    """Record-name validity decided on the real pattern with Python's anchor semantics (CrossHair's regex model
+    treats `$` as end-of-string only, so the name_validity partition cannot see a trailing newline)."""
+    import re
+    import vt.npshim  # noqa: F401
+    import z3
+    from metador_core.ih5.record import IH5Record
+    from vt.smt import rx as R
+
+    seen = []
+    orig = {k: getattr(re, k) for k in ("match", "fullmatch", "search")}
+    try:
+        for k in orig:
+            setattr(re, k, (lambda kk: lambda pat, string, *a, **kw: (seen.append((kk, pat)), orig[kk](pat, string, *a, **kw))[1])(k))
+        IH5Record._is_valid_record_name("x")
+    finally:
+        for k, v in orig.items():
+            setattr(re, k, v)
+    out = []
+    if len(seen) != 1:
+        return [{"name": "N0: _is_valid_record_name performs exactly one regex test", "result": "unknown", "expected": "unsat",
+                 "inconclusive": True, "time_s": 0, "queries": 0, "states": 0, "seen": repr(seen)}]
+    func, pat = seen[0]
+    s = z3.String("s")
+    lang = R.rx_py(pat, func)
+    spec = z3.Plus(z3.Union(z3.Range("a", "z"), z3.Range("A", "Z"), z3.Range("0", "9"), z3.Re("-")))
+    out.append(R.query("N1: names accepted by re.%s(%r) are exactly [A-Za-z0-9-]+ (no trailing newline etc.)" % (func, pat),
+                       [z3.Xor(z3.InRe(s, lang), z3.InRe(s, spec))], want=[s]))
+    out.append(R.query("W: witness - some valid record name exists (reachability twin)", [z3.InRe(s, lang), z3.Length(s) > 3],
+                       expect="sat", want=[s]))
+    for rec in out:
+        if rec["result"] != rec["expected"]:
+            if rec["result"] == "sat" and rec["name"].startswith("N1"):
+                w = list(rec.get("model", {}).values())[0]
+                ok = bool(w) and all(c.isascii() and (c.isalnum() or c == "-") for c in w)
+                rep.replayed += 1
+                if IH5Record._is_valid_record_name(w) != ok:
+                    rep.violations.append({"partition": "smt:" + rec["name"], "kwargs": {"witness": w}, "module": "", "func": "",
+                                           "what": f"record name {w!r}: _is_valid_record_name gives {not ok}, expected {ok}",
+                                           "key": "smt:N1"})
+                else:
+                    rec["inconclusive"] = True
+                    rep.inconclusive.append({"partition": "smt:" + rec["name"], "witness": w, "what": "witness does not reproduce natively"})
+            else:
+                rec["inconclusive"] = True
+    return out
